@@ -179,7 +179,7 @@ type c12Origin struct {
 	h3srv   *qhttp3.Server
 	udp     net.PacketConn
 	tcpConn atomic.Int64 // TCP connections accepted
-	tcpTLS  atomic.Int64 // completed TLS handshakes on TCP
+	tcpTLS  atomic.Int64 // TLS ClientHellos received on the TCP listener
 	quicOK  atomic.Int64 // HTTP/3 requests' distinct connections is hard to see; count requests instead
 	reqs    sync.Map     // proto -> *atomic.Int64
 	mu      sync.Mutex
@@ -301,6 +301,11 @@ func c12StartOrigin(offer c12Offer) (*c12Origin, error) {
 			return c
 		}
 		h := o.handler()
+		if offer.h3 {
+			qc := qhttp3.ConfigureTLSConfig(baseTLS())
+			o.h3srv = &qhttp3.Server{Handler: h, TLSConfig: qc, QUICConfig: &quic.Config{MaxIdleTimeout: 20 * time.Second}}
+			go o.h3srv.Serve(o.udp)
+		}
 		if offer.plain {
 			if offer.plainH2 {
 				go c12ServeH2C(o.tcpLn, h)
@@ -312,6 +317,10 @@ func c12StartOrigin(offer c12Offer) (*c12Origin, error) {
 		}
 		tc := baseTLS()
 		tc.NextProtos = append([]string(nil), offer.alpn...)
+		tc.GetConfigForClient = func(*tls.ClientHelloInfo) (*tls.Config, error) {
+			o.tcpTLS.Add(1) // a TLS ClientHello arrived on the TCP listener
+			return nil, nil
+		}
 		o.srv = &http.Server{Handler: h, TLSConfig: tc, ErrorLog: c12NullLog()}
 		hasH2 := false
 		for _, p := range offer.alpn {
@@ -319,22 +328,13 @@ func c12StartOrigin(offer c12Offer) (*c12Origin, error) {
 				hasH2 = true
 			}
 		}
-		if !hasH2 {
-			// disable the automatic HTTP/2 configuration of net/http
-			o.srv.TLSNextProto = map[string]func(*http.Server, *tls.Conn, http.Handler){}
-		}
-		tlsLn := tls.NewListener(o.tcpLn, tc)
 		if hasH2 {
-			// ServeTLS configures h2 itself (and appends h2/http1.1 to NextProtos when absent);
-			// we want exactly offer.alpn, so configure x/net-free: use ServeTLS with explicit config.
+			// net/http configures HTTP/2 itself and keeps NextProtos = {h2, http/1.1}
 			go o.srv.ServeTLS(o.tcpLn, "", "")
 		} else {
-			go o.srv.Serve(tlsLn)
-		}
-		if offer.h3 {
-			qc := qhttp3.ConfigureTLSConfig(baseTLS())
-			o.h3srv = &qhttp3.Server{Handler: h, TLSConfig: qc, QUICConfig: &quic.Config{MaxIdleTimeout: 20 * time.Second}}
-			go o.h3srv.Serve(o.udp)
+			// no automatic HTTP/2; NextProtos exactly as offered (possibly none)
+			o.srv.TLSNextProto = map[string]func(*http.Server, *tls.Conn, http.Handler){}
+			go o.srv.Serve(tls.NewListener(o.tcpLn, tc))
 		}
 		return o, nil
 	}
@@ -374,6 +374,10 @@ func c12ErrKind(err error) string {
 	var cv *tls.CertificateVerificationError
 	var al tls.AlertError
 	var te *quic.TransportError
+	// alert 120 (no_application_protocol) is an ALPN failure, not a certificate rejection
+	if strings.Contains(err.Error(), "no application protocol") || (errors.As(err, &te) && te.ErrorCode == 0x100+120) {
+		return "other"
+	}
 	switch {
 	case errors.As(err, &ua), errors.As(err, &hn), errors.As(err, &ci), errors.As(err, &cv), errors.As(err, &al):
 		return "tls"
